@@ -41,6 +41,9 @@ def run(res):
                                "case": r["case"], "impl_hex": r["comp"]["hex"][:4000], "model": (r["file_model"] or "")[:4000], "tags": ["writer-diff"]})
     for r in comp_bad[:2]:
         res.violations.append({"property": "C02", "what": "compress failed: " + r["compress_answer"][:200], "case": r["case"], "tags": ["compress-fail"]})
+    # 64-bit-word level: the real BitWriter against Words.v on operation scripts (own rng stream)
+    from props.words_corr import run_words_corr
+    run_words_corr(res, random.Random(res.seed + 17), thorough, parts=("writer",))
     # shipped assets through the independent decoder (extracted model; the in-Coq version is theorem C02_grammar_reads_shipped_assets)
     a = assets.load()
     sq = ["specdec %s %s" % (dt, hx) for (_, dt, hx, _) in a]
